@@ -296,6 +296,7 @@ def drive_c19(tier, seed, cfg):
     os.mkdir(os.path.join(cwd, "adir.tjp"))
     open(os.path.join(cwd, "empty.tjp"), "wb").close()
     open(os.path.join(cwd, "blank.tjp"), "wb").write(b"  \n\t\n\n")
+    open(os.path.join(cwd, "blanku.tjp"), "wb").write("\u00a0\u2028 \n\u0085".encode("utf-8"))
     open(os.path.join(cwd, "syntax.tjp"), "wb").write(good.replace(b"{", b"{ {", 1))
     open(os.path.join(cwd, "trunc.tjp"), "wb").write(good[: len(good) // 2])
     open(os.path.join(cwd, "badname.tjp"), "wb").write(good + b'taskreport bad "a:b" { formats json columns id }\n')
@@ -307,6 +308,8 @@ def drive_c19(tier, seed, cfg):
         ("missing", ["missing.tjp"], None, {1}), ("directory", ["adir.tjp"], None, {1}), ("empty", ["empty.tjp"], None, {1}),
         ("blank-stdin", ["-"], b"  \n\t\n", {1}), ("empty-stdin", [], b"", {1}),
         ("blank-file", ["blank.tjp"], None, {1}),       # nothing but white space is "empty" on either channel
+        ("blank-unicode-file", ["blanku.tjp"], None, {1}), ("blank-unicode-stdin", ["-"], "\u00a0\u2028 \n\u0085".encode("utf-8"), {1}),
+        ("missing-with-overlong-name", ["m" * 5000 + ".tjp"], None, {1}),
         ("syntax", ["syntax.tjp"], None, {2}), ("syntax-stdin", ["-"], good.replace(b"{", b"{ {", 1), {2}), ("truncated", ["trunc.tjp"], None, {2}),
         ("invalid-report-name", ["badname.tjp"], None, {2}),
         ("not-decodable", ["latin1.tjp"], None, {1, 2}),
